@@ -337,7 +337,7 @@ var c19Long = &vh.Prop[c19LongCase]{
 }
 
 func TestC19LongHistory(t *testing.T) { c19Long.Check(t, vh.N(40, 400)) }
-func TestC19Schedules(t *testing.T)  { c19Sched.Check(t, vh.N(2500, 15000)) }
+func TestC19Schedules(t *testing.T)   { c19Sched.Check(t, vh.N(2500, 15000)) }
 
 // TestC19Race: 2-8 free-running goroutines decode through one shared instance (run with -race).
 func TestC19Race(t *testing.T) {
